@@ -37,7 +37,7 @@ CLAIMED = {
         "paths each run; 'tightens with tolerance' not shown."),
  "C03": dict(
    technique="Lean 4 proof (induction over steps / environment lists / List.Perm) on an executable multi-environment contraction model + regenerated leg wiring (MpoWiring) + differential correspondence against real compute_dynamics / get_mpo_tensor / compute_caps",
-   text="For every number of steps, bond dimension and tensor content, compute_dynamics with a list of process tensors records what it records for one combined process tensor (no cross-talk between bond legs), hence the dynamics of its dense form. The list order is irrelevant for any permutation of pairwise commuting environments. The caps produced by compute_caps close exactly the transformed tensors that are contracted, for rank 3 and rank 4, with and without transforms, in both SimpleProcessTensor and FileProcessTensor, and equal the ancilla trace for trace-preserving joint maps. The process tensor of an ancilla reproduces the partial trace of the joint evolution, interleaved with half-step propagators and controls, at every step, including the finite form with its last bond closed. Two baths with one coupling operator equal one bath with the summed eta at the level of influence functionals, dense process tensors and reported states. The axis numbers, delta scrambling, transform transposes, trace vectors and cap leg closings are re-read from the source on every run, and the executable model is compared with the real code on random tensor lists.",
+   text="For every number of steps, bond dimension and tensor content, compute_dynamics with a list of process tensors records what it records for one combined process tensor (no cross-talk between bond legs), hence the dynamics of its dense form. The list order is irrelevant for any permutation of pairwise commuting environments. The caps produced by compute_caps close exactly the transformed tensors that are contracted, for rank 3 and rank 4, with and without transforms, in both SimpleProcessTensor and FileProcessTensor, and equal the ancilla trace for trace-preserving joint maps. The process tensor of an ancilla reproduces the partial trace of the joint evolution, interleaved with half-step propagators and controls, at every step, including the finite form with its last bond closed. Two baths with one coupling operator equal one bath with the summed eta at the level of influence functionals, dense process tensors and reported states. The states returned by get_mpo_tensor / get_cap_tensor are proved to depend only on the currently stored tensors and the transforms for every set/get history, under the memoisation wiring regenerated from the source (a getter-written attribute that a setter does not invalidate fails an obligation). The axis numbers, delta scrambling, transform transposes, trace vectors and cap leg closings are re-read from the source on every run, and the executable model is compared with the real code on random tensor lists, incl. float-time controls with non-zero start_time and overwrite-then-contract histories.",
    ref="§4 C03",
    note=TB + "tensornetwork joins exactly the edges connected with ^ (edge identity); numpy dot/moveaxis/.T semantics; h5py round-trip; exact arithmetic in the theorems (float code agrees to 1e-15 observed, 1e-9 demanded). Order independence only under the commutation hypothesis (non-commuting order is not claimed: it would be a false alarm). The dense-form hypotheses of sum_of_baths are C02's sampled correspondence."),
  "C04": dict(
